@@ -299,3 +299,181 @@ def core_roles_ok(c):
     if r is None:
         raise Unsupported('the index roles of the updated core were lost (an operation outside the role calculus was applied)')
     return tuple(r[:4]) == ROLES_SOL
+
+
+# ----------------------------------------------------------------------------------------------------------------------
+# the driver
+
+def _same_slot(i0, k):
+    i0, k = zi(i0), zi(k)
+    if z3.is_app_of(i0, z3.Z3_OP_ITE) and i0.arg(2).eq(k):
+        return True         # python index normalisation  If(k < 0, k + n, k)
+    return i0.eq(k) or z3.is_true(z3.simplify(i0 == k))
+
+
+def _base_fn(lst, k):
+    """element function of a list of mutable tensor trains *before* the slot writes of the current iteration (all of which
+    must be at slot k)"""
+    ws = lst.__dict__.get('writes') or []
+    for i0, _, _ in ws:
+        if not _same_slot(i0, k):
+            raise Unsupported('a slot other than the current one of the list of solutions was materialised')
+    return ws[0][2] if ws else lst.fn
+
+
+def _cur(lst, k):
+    ws = lst.__dict__.get('writes') or []
+    return ws[-1][1] if ws else lst.fn(zi(k))
+
+
+def elem_ok(e, g0, mark0):
+    """a finished or not yet touched solution: a valid tensor train of the guess's dimensions whose ranks do not exceed the
+    guess's, made of objects and buffers allocated by this call"""
+    from vt.e1.contract import valid, meta_fresh, cores_fresh, same_ints
+    d = zi(g0.order)
+    return z3.And(valid(e), zi(e.order) == d, same_ints(e.row_dims, g0.row_dims, d), FA(0, d, lambda q: lst_get(e.col_dims, q) == 1),
+                  FA(0, d + 1, lambda q: z3.And(lst_get(e.ranks, q) <= lst_get(g0.ranks, q), lst_get(e.ranks, q) >= 1)),
+                  lst_get(e.ranks, 0) == 1, lst_get(e.ranks, d) == 1, meta_fresh(e, mark0), cores_fresh(e, mark0),
+                  FA(0, d, lambda q: z3.Not(lst_get(e.cores, q).cplx)))
+
+
+@register
+class Arr(Contract):
+    """arr(x_data, y_data, basis_list, initial_guess: TT, repeats, rcond): one alternating ridge regression per row of y_data, each
+    on its own copy of the guess.  Structural clauses for all orders, basis sizes, ranks, snapshot and target counts: the
+    helper protocol (every environment a helper reads has been built for the current ranks, every core it reads is
+    consistent), the result is a list of len(y_data) valid tensor trains of the guess's dimensions with ranks <= the guess's,
+    none of them sharing an object or buffer with the guess, and neither the guess nor the data are written."""
+    name, func, file, cls = 'fn:arr', 'arr', FILE, None
+    props = ('C16',)
+    list_kinds = {'stack_left': 'optarr2', 'stack_right': 'optarr2'}
+    K0, K1, K2, K3, K4 = ('k in range(y_data.shape[0])', 'i in range(order - 1, -1, -1)#1', 'while current_iteration <= repeats',
+                          'i in range(order)', 'i in range(order - 1, -1, -1)#4')
+    loop_ordinals = {0: K0, 1: K1, 2: K2, 3: K3, 4: K4}
+
+    def defaults(self):
+        return {'repeats': 1, 'rcond': SNum('rcond'), 'string': NONE, 'progress': True}
+
+    def setup(self, ex, state, inst):
+        from vt.e1.contract import mk_tt
+        m0 = ex.ctx.mark0
+        g = mk_tt(state, 'initial_guess', m0)
+        x = with_roles(SArr([fresh('dx'), fresh('m')], False, fresh('xbuf'), fresh('xct', 'bool')), ROLES_DATA)
+        y = SArr([fresh('ny'), x.shape[1]], False, fresh('ybuf'), fresh('yct', 'bool'))
+        basis = mk_basis(state, zi(g.order), x.shape[0])
+        return {'x_data': x, 'y_data': y, 'basis_list': basis, 'initial_guess': g, 'repeats': fresh('repeats'), 'rcond': SNum('rcond'),
+                'string': NONE, 'progress': fresh('progress', 'bool')}
+
+    def domain_extra(self, S):
+        x, y = S.a['x_data'], S.a['y_data']
+        ok = isinstance(x, SArr) and isinstance(y, SArr) and len(x.shape) == 2 and len(y.shape) == 2
+        yield 'data-matrices-real', ok and z3.And(z3.Not(x.cplx), z3.Not(y.cplx))
+
+    def requires(self, S):
+        x, y, basis, g = S.a['x_data'], S.a['y_data'], S.a['basis_list'], S.a['initial_guess']
+        d = zi(g.order)
+        yield 'guess-is-a-TT', isinstance(g, STT)
+        yield 'guess-vector-type', z3.And(FA(0, d, lambda j: lst_get(g.col_dims, j) == 1), lst_get(g.ranks, 0) == 1, lst_get(g.ranks, d) == 1,
+                                          FA(0, d, lambda j: z3.Not(lst_get(g.cores, j).cplx)))
+        yield 'one-basis-list-per-mode', z3.And(zi(basis.len_term()) == d, FA(0, d, lambda j: _ArrHelper._basis_ok(basis, g, x, j)))
+        # derived from the least-squares solves: one target value per snapshot, at least one snapshot
+        yield 'snapshot-counts-match', z3.And(y.shape[1] == x.shape[1], x.shape[1] >= 1)
+
+    def ensures(self, S, res):
+        g0, y = S.o['initial_guess'], S.o['y_data']
+        ok = isinstance(res, SList) and res.kind == 'tt'
+        yield 'returns-list-of-TT', ok
+        if ok:
+            n = zi(res.len_term())
+            yield 'one-solution-per-target', n == y.shape[0]
+            yield 'list-fresh', res.ref >= S.mark0
+            f = res.fn if not (res.__dict__.get('writes')) else None
+            if f is None:
+                raise Unsupported('result list with a materialised slot')
+            yield 'solutions', FA(0, n, lambda j: elem_ok(f(j), g0, S.mark0))
+
+    def canary(self, S, res):
+        return zi(res.len_term()) == S.o['y_data'].shape[0] + 1 if isinstance(res, SList) else None
+
+    # -- loop invariants ---------------------------------------------------------------------------------------------------
+    def common(self, V, dirty=None):
+        from vt.e1.contract import meta_fresh, same_ints
+        lst, g0, y = V['solution'], V.old('initial_guess'), V.old('y_data')
+        k = zi(V['k'])
+        d = zi(g0.order)
+        n = y.shape[0]
+        yield 'k-in-range', z3.And(k >= 0, k < n)
+        yield 'solution-list', z3.And(lst.ref >= V.mark0, zi(lst.len_term()) == n, z3.BoolVal(lst.kind == 'tt'))
+        base = _base_fn(lst, k)
+        yield 'other-solutions', FA(0, n, lambda j: z3.Implies(j != k, elem_ok(base(j), g0, V.mark0)))
+        sol = _cur(lst, k)
+        yield 'solution-identity', z3.And(meta_fresh(sol, V.mark0), lists_distinct(sol), zi(sol.order) == d, zi(sol.cores.length) == d,
+                                          zi(sol.ranks.length) == d + 1, zi(sol.row_dims.length) == d, zi(sol.col_dims.length) == d)
+        yield 'solution-dims', z3.And(same_ints(sol.row_dims, g0.row_dims, d), FA(0, d, lambda j: lst_get(sol.col_dims, j) == 1))
+        yield 'ranks<=guess', FA(0, d + 1, lambda j: z3.And(lst_get(sol.ranks, j) <= lst_get(g0.ranks, j), lst_get(sol.ranks, j) >= 1))
+        yield 'boundary', z3.And(lst_get(sol.ranks, 0) == 1, lst_get(sol.ranks, d) == 1)
+        yield 'buffers-fresh', FA(0, d, lambda j: z3.And(lst_get(sol.cores, j).buf >= V.mark0, z3.Not(lst_get(sol.cores, j).cplx)))
+        for nm in ('stack_left', 'stack_right'):
+            yield 'len(%s)' % nm, z3.And(zi(V[nm].length) == d, V[nm].ref >= V.mark0)
+        yield 'order', zi(V['order']) == d
+
+    def invariant(self, key, inst):
+        me = self
+
+        def inv_outer(V, k, it):
+            lst, g0, y = V['solution'], V.old('initial_guess'), V.old('y_data')
+            n = y.shape[0]
+            yield 'solution-list', z3.And(lst.ref >= V.mark0, zi(lst.len_term()) == n, z3.BoolVal(lst.kind == 'tt'))
+            ws = lst.__dict__.get('writes') or []
+            if ws:
+                base, cur, kk = ws[0][2], ws[-1][1], zi(k)
+                for i0, _, _ in ws:
+                    if not _same_slot(i0, kk):
+                        raise Unsupported('several slots of the list of solutions were materialised in one iteration')
+                yield 'solutions', z3.And(elem_ok(cur, g0, V.mark0), FA(0, n, lambda j: z3.Implies(j != kk, elem_ok(base(j), g0, V.mark0))))
+            else:
+                yield 'solutions', FA(0, n, lambda j: elem_ok(lst.fn(j), g0, V.mark0))
+            yield 'order', zi(V['order']) == zi(g0.order)
+
+        def m_of(V):
+            return V.old('x_data').shape[1]
+
+        def inv_init(V, i, it):
+            from vt.e1.contract import wf
+            sol = _cur(V['solution'], V['k'])
+            d = zi(V.old('initial_guess').order)
+            yield from me.common(V)
+            yield 'wf(solution)', wf(sol)
+            yield 'right-stacks', FA(0, d, lambda j: z3.Implies(j > i, R(V['stack_right'], sol, j, m_of(V))))
+
+        def inv_while(V, i, it):
+            from vt.e1.contract import wf
+            sol = _cur(V['solution'], V['k'])
+            d = zi(V.old('initial_guess').order)
+            yield from me.common(V)
+            yield 'wf(solution)', wf(sol)
+            yield 'right-stacks', FA(0, d, lambda j: R(V['stack_right'], sol, j, m_of(V)))
+
+        def inv_fwd(V, i, it):
+            sol = _cur(V['solution'], V['k'])
+            d = zi(V.old('initial_guess').order)
+            dirty = z3.If(i < d - 1, i, d - 1)
+            yield from me.common(V)
+            yield 'cores', FA(0, d, lambda j: z3.Implies(j != dirty, sol_core_ok(sol, j)))
+            yield 'left-stacks', FA(0, d, lambda j: z3.Implies(j < i, L(V['stack_left'], sol, j, m_of(V))))
+            yield 'right-stacks', FA(0, d, lambda j: z3.Implies(j >= i, R(V['stack_right'], sol, j, m_of(V))))
+
+        def inv_bwd(V, i, it):
+            sol = _cur(V['solution'], V['k'])
+            d = zi(V.old('initial_guess').order)
+            yield from me.common(V)
+            yield 'cores', FA(0, d, lambda j: z3.Implies(j != i, sol_core_ok(sol, j)))
+            yield 'left-stacks', FA(0, d, lambda j: z3.Implies(j <= i, L(V['stack_left'], sol, j, m_of(V))))
+            yield 'right-stacks', FA(0, d, lambda j: z3.Implies(j > i, R(V['stack_right'], sol, j, m_of(V))))
+        return {self.K0: inv_outer, self.K1: inv_init, self.K2: inv_while, self.K3: inv_fwd, self.K4: inv_bwd}.get(key)
+
+    def effect(self, ex, state, A, inst, line):
+        from vt.e1.symexec import sym_elem_fn as sef
+        n = fresh('nsol')
+        state.assume(n >= 0)
+        return SList(state.alloc(), n, fn=sef('tt', state), kind='tt')
